@@ -79,7 +79,8 @@ def aux_stream(ctx, res, prefix, lean_mode, what, timeout=3600):
     return dict(operations=n, disagreements=total)
 
 
-AIRDKG_TRUSTED = ['correspondence airdkg (a second stream of the algdiff run): every commits / deals / responses / master-key operation a real airgapped machine handles in the ceremonies - honest ones and the deviating-dealer scenarios - is written down in the abstract form of Model/AirDkg.lean (a point as its discrete logarithm, known to the harness through the dealer coefficients read by the verif hooks and through its own forgeries; a ciphertext as what its addressee obtains from it; a signature as whether it verifies; a session id as what it hashes) and the compiled model must give the machine\'s answer: refusal (error result naming the index, or fatal), own commitments, every share dealt and to whose key, the dealers answered, master key, public polynomial and the stored share',
+AIRDKG_TRUSTED = ['translator: the statement order of the four key-generation handlers of airgapped/dkg.go and of dkg.ProcessDeals (Gen/AirDkgOrder.lean), regenerated on every run; Props/AirDkgSrc.lean fixes, kernel-evaluated, the order facts the handler model rests on (the instance filed at the end of the commits step, a deal filed after its dealer index was compared, the key ring saved before the one announcement is appended, the vss layer asked before the broadcast commitments are compared)',
+                  'correspondence airdkg (a second stream of the algdiff run): every commits / deals / responses / master-key operation a real airgapped machine handles in the ceremonies - honest ones and the deviating-dealer scenarios - is written down in the abstract form of Model/AirDkg.lean (a point as its discrete logarithm, known to the harness through the dealer coefficients read by the verif hooks and through its own forgeries; a ciphertext as what its addressee obtains from it; a signature as whether it verifies; a session id as what it hashes) and the compiled model must give the machine\'s answer: refusal (error result naming the index, or fatal), own commitments, every share dealt and to whose key, the dealers answered, master key, public polynomial and the stored share',
                   'the abstraction itself (decrypting with the machines\' keys, schnorr.Verify, the re-implemented vss session id) is harness code; kyber\'s group, ECIES, AEAD and Schnorr are not modelled; an operation with a point or shape the harness cannot translate, and a round after a refused responses / master-key step (where the real state depends on Go\'s map order), are left out and counted']
 
 
@@ -231,7 +232,7 @@ def prog_C01(ctx):
 
 def prog_C02(ctx):
     fsm_part(ctx, ['C02'], ['event_dkg_master_key'])
-    res = generic(ctx, ['Dc4bcVerif.Props.C02', 'Dc4bcVerif.Props.C02Fsm', 'Dc4bcVerif.Props.C02Air', 'Dc4bcVerif.Props.C01'], 'algdiff', 'alg', ['C02'], ALG_TRUSTED, ALG_RULE, cov_from_stats=alg_cov)
+    res = generic(ctx, ['Dc4bcVerif.Props.C02', 'Dc4bcVerif.Props.C02Fsm', 'Dc4bcVerif.Props.C02Air', 'Dc4bcVerif.Props.AirDkgSrc', 'Dc4bcVerif.Props.C01'], 'algdiff', 'alg', ['C02'], ALG_TRUSTED, ALG_RULE, cov_from_stats=alg_cov)
     airdkg_part(ctx, res)
 
 
@@ -362,7 +363,7 @@ def prog_C07(ctx):
 
 def prog_C11(ctx):
     fsm_part(ctx, ['C05', 'C11'], ['event_dkg'])
-    res = generic(ctx, ['Dc4bcVerif.Props.C11', 'Dc4bcVerif.Props.C11Air', 'Dc4bcVerif.Props.C02'], 'algdiff', 'alg', ['C11'], ALG_TRUSTED,
+    res = generic(ctx, ['Dc4bcVerif.Props.C11', 'Dc4bcVerif.Props.C11Air', 'Dc4bcVerif.Props.AirDkgSrc', 'Dc4bcVerif.Props.C02'], 'algdiff', 'alg', ['C11'], ALG_TRUSTED,
             ALG_RULE + '; C11: one key generation per (deviation kind, dealer, victim): broadcast commitments with replaced tail / all replaced / longer / shorter / a non-point, deal bit-flipped / truncated / empty / meant for somebody else, a response turned into a complaint; quick: (3,2) one pair per kind; thorough: four configurations, all or sampled pairs; plus a control run without deviation',
             cov_from_stats=alg_cov)
     airdkg_part(ctx, res)
@@ -413,7 +414,7 @@ def air_cov(ctx, st):
 
 
 def prog_C12(ctx):
-    res = generic(ctx, ['Dc4bcVerif.Props.C12', 'Dc4bcVerif.Props.C12Process', 'Dc4bcVerif.Props.C12Air', 'Dc4bcVerif.Props.C12Seed', 'Dc4bcVerif.Props.C18Air'], 'airdiff', 'air', ['C12'], AIR_TRUSTED +
+    res = generic(ctx, ['Dc4bcVerif.Props.C12', 'Dc4bcVerif.Props.C12Process', 'Dc4bcVerif.Props.C12Air', 'Dc4bcVerif.Props.AirDkgSrc', 'Dc4bcVerif.Props.C12Seed', 'Dc4bcVerif.Props.C18Air'], 'airdiff', 'air', ['C12'], AIR_TRUSTED +
             ['translator: every write to and every use of the airgapped machine\'s in-memory base seed, and what dkg.InitDKGInstance does with the slice it is handed (Gen/SeedFacts.lean), regenerated on every run; frand.NewCustom / sha256 / the suite constructor not writing their argument is trusted and exercised by the second-ceremony restarts'],
             'ceremonies (3,2),(2,2) [thorough: +(4,3),(3,3)]; per ceremony one participant: restart before every operation, and (sampled in quick, all in thorough) kill-before-log and kill-after-log at every operation, plus one run restarting after every step; two clones fed the same operations; then a SECOND ceremony of the same participants handled by the same process: the same restart points inside it (sampled in quick), and a machine fed the second ceremony alone',
             cov_from_stats=air_cov)
